@@ -5,8 +5,12 @@ import (
 	"fmt"
 	"os"
 	"path/filepath"
+	"sort"
 	"strings"
 
+	"github.com/nyaruka/gocommon/uuids"
+	"github.com/nyaruka/goflow/flows"
+	"github.com/nyaruka/goflow/flows/definition"
 	"verif/world"
 )
 
@@ -210,6 +214,74 @@ func valueStateScenarios() []Scenario {
 				return "", fmt.Errorf("PROCESS-STATE: the same session gives different bytes after the process ran a session whose webhook answered %s\n%s", body, diffAt(early, late))
 			}
 			return early + "\nMARKERS:" + marks, nil
+		}})
+	}
+	return out
+}
+
+// ---------------------------------------------------------------------------------------------
+// Object history: what the flow APIs return for a flow object must be a function of the definition
+// it holds now, not of what was asked of the object before. A flow is read, one API is called on it,
+// a translation of an evaluated text is imported (Localization().SetItemTranslation, as the PO import
+// does), and then every API's answer is compared with the answer of a flow read afresh from the
+// object's own marshalled definition.
+// ---------------------------------------------------------------------------------------------
+
+func objectHistoryScenarios() []Scenario {
+	u := func(s string) string { return world.UUID("c08.hist." + s) }
+	def := func() []byte {
+		nodes := []any{
+			J{"uuid": u("n0"), "actions": []any{
+				J{"uuid": u("a0"), "type": "send_msg", "text": "Hello", "quick_replies": []any{"Yes"}},
+				J{"uuid": u("a1"), "type": "set_run_result", "name": "Seen", "value": "1", "category": "One"},
+			}, "exits": []any{J{"uuid": u("e0")}}},
+		}
+		b, _ := json.Marshal(J{"uuid": world.FlowUUID(0), "name": "Flow 0", "spec_version": "13.5.0", "language": "eng", "type": "messaging",
+			"nodes": nodes, "localization": J{"spa": J{u("a0"): J{"text": []any{"Hola"}}}}})
+		return b
+	}
+	firsts := map[string]func(sa flows.SessionAssets, fl flows.Flow){
+		"nothing":      func(sa flows.SessionAssets, fl flows.Flow) {},
+		"inspect":      func(sa flows.SessionAssets, fl flows.Flow) { fl.Inspect(sa) },
+		"templates":    func(sa flows.SessionAssets, fl flows.Flow) { fl.ExtractTemplates() },
+		"localizables": func(sa flows.SessionAssets, fl flows.Flow) { fl.ExtractLocalizables() },
+		"marshal":      func(sa flows.SessionAssets, fl flows.Flow) { json.Marshal(fl) },
+		"changelang":   func(sa flows.SessionAssets, fl flows.Flow) { fl.ChangeLanguage("spa") },
+		"all":          func(sa flows.SessionAssets, fl flows.Flow) { var sb strings.Builder; flowAPIs(sa, fl, &sb) },
+	}
+	var names []string
+	for n := range firsts {
+		names = append(names, n)
+	}
+	sort.Strings(names)
+	var out []Scenario
+	for _, n := range names {
+		n := n
+		out = append(out, Scenario{Name: "process-state:object-history " + n + " before a translation is imported", Run: func() (string, error) {
+			world.Reset()
+			sa, _, err := world.BuildAssets(world.BaseAssets())
+			if err != nil {
+				return "", err
+			}
+			f1, err := definition.ReadFlow(def(), nil)
+			if err != nil {
+				return "", err
+			}
+			firsts[n](sa, f1)
+			f1.Localization().SetItemTranslation("spa", uuids.UUID(u("a0")), "text", []string{"Hola @fields.age @globals.org_name @parent.results.color @(bad"})
+			f1.Localization().SetItemTranslation("spa", uuids.UUID(u("a0")), "quick_replies", []string{"@fields.gender"})
+			var got, want strings.Builder
+			flowAPIs(sa, f1, &got)
+			mb, _ := json.Marshal(f1)
+			f2, err := definition.ReadFlow(mb, nil)
+			if err != nil {
+				return "", fmt.Errorf("the object's own definition does not read back: %v", err)
+			}
+			flowAPIs(sa, f2, &want)
+			if got.String() != want.String() {
+				return "", fmt.Errorf("PROCESS-STATE: after %q was called on a flow object and a translation was imported, the object's APIs answer differently from a flow read afresh from the object's own definition\n%s", n, diffAt(want.String(), got.String()))
+			}
+			return got.String(), nil
 		}})
 	}
 	return out
